@@ -109,6 +109,13 @@ func NewParameters(logn int, q, p []uint64, xs, xe DistributionLiteral, ringType
 		return Parameters{}, err
 	}
 
+	// The rings Q and P must be coprime (each ring only checks that its own moduli are distinct).
+	for i, pi := range p {
+		if slices.Contains(q, pi) {
+			return Parameters{}, fmt.Errorf("a Pi (i=%d) is also a Qi", i)
+		}
+	}
+
 	copy(params.qi, q)
 
 	if p != nil {
